@@ -1,6 +1,6 @@
 -------------------------------------- MODULE LibraryMergeDir_mc --------------------------------------
-(* Bounded instances of LibraryMergeDir.  Labels: 1 U235AA  2 U235AB  3 FE56AA  4 PU39AB  5 NA23AA  6 FE56AC  7 DMP1AA  8 DMP1AB.
-   Sources 1..3 = ISOAA, AA.gamiso, AA.pmatrx; 4..6 = ISOAB, AB.gamiso, AB.pmatrx; 7 = a library that is not in the directory. *)
+(* Bounded instances of LibraryMergeDir.  Labels: 1 U235AA  2 U235NA  3 NA23AA  4 PU39NA  5 FE56AA  6 FE56AC  7 DMP1AA  8 DMP1NA.
+   Sources 1..3 = ISOAA, AA.gamiso, AA.pmatrx; 4..6 = ISONA, NA.gamiso, NA.pmatrx; 7 = a library that is not in the directory. *)
 EXTENDS LibraryMergeDir
 N(labs, ngs, meta, fw)        == [kind |-> "n", labs |-> labs, ngs |-> ngs, ggs |-> 0, nd |-> 0, gd |-> 0, meta |-> meta, fw |-> fw]
 G(labs, ggs, meta)            == [kind |-> "g", labs |-> labs, ngs |-> 0, ggs |-> ggs, nd |-> 0, gd |-> 0, meta |-> meta, fw |-> FALSE]
@@ -25,7 +25,8 @@ ScenThorough == ScenQuick \o <<
     Scen(FALSE, FALSE, FALSE, 2, FALSE, G({1, 3}, 1, 1)),         \* the AB files have another neutron structure: refused
     Scen(TRUE, FALSE, FALSE, 1, FALSE, N({1}, 1, 1, FALSE))       \* no dummy anywhere although modelled; the outsider overlaps ISOAA
 >>
+IdOf8 == <<1, 2, 1, 2, 1, 3, 1, 2>>
 Bound == TLCGet("level") <= MaxLevel
 View  == dvars
-Emit  == PrintT(ToJson([lvl |-> TLCGet("level"), from |-> DVars, act |-> act', to |-> DVars', err |-> err']))
+Emit  == PrintT(ToJson([lvl |-> TLCGet("level"), from |-> DVars, act |-> act', to |-> DVars', err |-> err', asb |-> AsBuiltOf(act', err')]))
 =====================================================================================================
